@@ -45,6 +45,7 @@ struct Params {
 	// (fopen; fwrite of n>0 bytes; fflush, fseek, fseeko while written data may still be buffered: in call order) fails when i is listed in stdio_fail_at; with stdio_sticky every
 	// later eligible call fails too (the disk stays full)
 	std::string stdio_track; std::vector<uint32_t> stdio_fail_at; bool stdio_sticky = false;
+	std::vector<uint32_t> accept_fail_at;    // the i-th accept() that finds a pending connection fails with EMFILE (descriptor exhaustion, transient): the connection stays in the backlog
 	std::vector<uint32_t> urandom_fail_at;   // the i-th open("/dev/urandom") fails with EMFILE (descriptor exhaustion) for the listed i
 	size_t default_chan_cap = 65536;
 	bool text_trace = false;
@@ -54,7 +55,7 @@ struct Params {
 // ---------------------------------------------------------------- statistics: what actually fired
 struct Stats {
 	uint64_t steps=0, switches=0, clock_jumps=0;
-	uint64_t short_reads=0, short_writes=0, eagain_r=0, eagain_w=0, eintr=0, spurious=0, resets=0, epipe=0, partitions=0, partition_refused=0, getpeername_enotconn=0, urandom_open_failed=0;
+	uint64_t short_reads=0, short_writes=0, eagain_r=0, eagain_w=0, eintr=0, spurious=0, resets=0, epipe=0, partitions=0, partition_refused=0, getpeername_enotconn=0, urandom_open_failed=0, accept_emfile=0;
 	uint64_t file_short=0, file_eintr=0, cv_spurious=0, stdio_ops=0, stdio_fail=0;
 	uint64_t threads_created=0, mutex_contended=0, rw_contended=0, cv_waits=0;
 	uint64_t accepts=0, connects=0, bytes_rx=0, bytes_tx=0;
